@@ -18,7 +18,18 @@ import (
 // the lock round; the victims (x, y or x alone) lock B, then receive the held-back prevotes of the
 // hidden polka (for a block A, or for nil), move to the final round without seeing z's precommit,
 // and are offered block C by f.
-func genLatePolka(r *rand.Rand) core.Case {
+func genLatePolka(r *rand.Rand) core.Case { return genLatePolkaR(r, false) }
+
+// genLatePolkaR with restart=true: the same scenario on nodes that keep a real WAL; instead of (or in
+// addition to) the late polka the victims CRASH AND RESTART after they have locked and precommitted B
+// — through the real blockchain/v0 fast-sync hand-over with nothing to sync. The WAL replay must
+// bring lock, round and vote sets back; a node that came back blank would follow the faulty proposer
+// of the next round to a different block although z has decided B.
+func genLatePolkaR(r *rand.Rand, restart bool) core.Case {
+	kindName := "late-polka"
+	if restart {
+		kindName = "restart"
+	}
 	w := getWorld([]int64{1, 1, 1, 1})
 	n := w.n()
 	lockR := 1 + r.Intn(2)
@@ -26,11 +37,11 @@ func genLatePolka(r *rand.Rand) core.Case {
 	finR := lockR + 1
 	f := w.proposers[finR]
 	pL := w.proposers[lockR]
-	g := newGen(r, w, []int{f}, r.Intn(3) != 0, false, false)
+	g := newGenW(r, w, []int{f}, r.Intn(3) != 0, false, false, restart)
 	if pL == f || w.proposers[hidR] == pL {
 		// not realisable with this proposer table: fall back to a plain run
 		g.drive(policy{nodes: g.correctL}, func() bool { return g.allDone(g.correctL) }, 300)
-		return g.finish("late-polka")
+		return g.finish(kindName)
 	}
 	cor := append([]int{}, g.correctL...)
 	r.Shuffle(len(cor), func(a, b int) { cor[a], cor[b] = cor[b], cor[a] })
@@ -99,7 +110,7 @@ func genLatePolka(r *rand.Rand) core.Case {
 			}
 			if A < 0 {
 				g.drive(policy{nodes: all}, func() bool { return g.allDone(all) }, 300)
-				return g.finish("late-polka")
+				return g.finish(kindName)
 			}
 		}
 		g.byzVote(f, "pv", rr, -1, true)
@@ -129,7 +140,7 @@ func genLatePolka(r *rand.Rand) core.Case {
 	}
 	if B < 0 || B == A {
 		g.drive(policy{nodes: all}, func() bool { return g.allDone(all) }, 300)
-		return g.finish("late-polka")
+		return g.finish(kindName)
 	}
 	locked := func(i int) bool { return !g.live(i) || int(g.rs(i).LockedRound) == lockR }
 	g.drive(policy{nodes: all,
@@ -151,12 +162,31 @@ func genLatePolka(r *rand.Rand) core.Case {
 	if g.live(z) || !g.live(x) || !g.live(y) || !locked(x) || !locked(y) {
 		gstat("late-polka.setup-incomplete")
 		g.drive(policy{nodes: all}, func() bool { return g.allDone(all) }, 300)
-		return g.finish("late-polka")
+		return g.finish(kindName)
 	}
 	gstat("late-polka.z-decided-B-and-victims-locked-B")
 
-	// the late polka: the held-back prevotes of the hidden round reach the victims now
 	vs := []int{x, y}
+	if restart {
+		// crash and restart of the victims (z has decided and is gone)
+		for _, i := range vs {
+			if lateTo[i] || r.Intn(2) == 0 {
+				g.restart(i)
+				if g.live(i) && int(g.rs(i).LockedRound) == lockR {
+					gstat("restart.victim-came-back-with-its-lock")
+				} else {
+					gstat("restart.victim-came-back-WITHOUT-its-lock")
+				}
+				// what the network still has for it: its own precommit of the lock round comes back too
+				for k, m := range g.nt.log {
+					if m.ok && !m.prop && m.sender == i && m.t == "pc" && m.r == lockR {
+						g.deliver(i, k)
+					}
+				}
+			}
+		}
+	}
+	// the late polka: the held-back prevotes of the hidden round reach the victims now
 	g.drive(policy{nodes: vs, allowBlock: no,
 		allowMsg:  func(i, k int, m msg) bool { return lateTo[i] && !m.prop && m.r == hidR && m.t == "pv" },
 		allowFire: func(i, q int) bool { return false }}, func() bool { return false }, 40)
@@ -216,5 +246,5 @@ func genLatePolka(r *rand.Rand) core.Case {
 	if g.allDone(all) {
 		gstat("late-polka.all-correct-nodes-decided")
 	}
-	return g.finish("late-polka")
+	return g.finish(kindName)
 }
